@@ -6,13 +6,19 @@ def read(name):
 def fx(fx_name, float_name):
     return read('fx.rs.tmpl').replace('@FX@', fx_name).replace('@FLOAT@', float_name)
 def lit_rewrite(text, default='Fx'):
-    """decimal float literal `d.ddd` (optionally with _ separators and f32/f64 suffix) -> Fx::lit(n, 10^k).
-    Applied only inside E2 units after the f32->Fx substitution."""
+    """float literal (decimal `d.ddd`, optional exponent `e-3`, `_` separators, optional f32/f64 suffix; also bare `1e-3`)
+    -> `Fx::lit(n, d)` with n/d the exact rational the literal spells.  Applied only inside E2 units after f32 -> Fx."""
     import re
+    from fractions import Fraction
     def sub(m):
         s = m.group(0)
         suffix = 'Fx64' if s.endswith('f64') else ('Fx' if s.endswith('f32') else default)
         s = re.sub(r'_?f(32|64)$', '', s).replace('_', '')
-        ip, fp = s.split('.')
-        return f'{suffix}::lit({int(ip + fp)}, {10 ** len(fp)})'
-    return re.sub(r'(?<![\w.])\d[\d_]*\.\d[\d_]*(_?f32|_?f64)?(?![\w])', sub, text)
+        mant, _, ex = s.lower().partition('e')
+        ip, _, fp = mant.partition('.')
+        q = Fraction(int(ip + fp), 10 ** len(fp)) * (Fraction(10) ** int(ex) if ex else 1)
+        # keep the denominator a power of ten (what the literal spells)
+        d = 1
+        while (q * d).denominator != 1: d *= 10
+        return f'{suffix}::lit({int(q * d)}, {d})'
+    return re.sub(r'(?<![\w.])(?:\d[\d_]*\.\d[\d_]*(?:[eE][+-]?\d+)?|\d[\d_]*[eE][+-]?\d+)(_?f32|_?f64)?(?![\w])', sub, text)
